@@ -3,15 +3,16 @@ package pgen
 import (
 	"fmt"
 	"math/rand"
+	"strings"
 )
 
 // Skeleton programs for dependency / fork shapes that the purely random
 // generator reaches rarely.  Types and literal values are still random.
 
-const NTemplates = 9
+const NTemplates = 11
 
 // NFileTemplates file-passing skeletons follow the NTemplates dataflow ones.
-const NFileTemplates = 6
+const NFileTemplates = 7
 
 func ref(call string, path ...string) *Exp { return &Exp{Kind: ERefCall, Id: call, Path: path} }
 func self(id string, path ...string) *Exp  { return &Exp{Kind: ERefSelf, Id: id, Path: path} }
@@ -235,6 +236,75 @@ func Template(kind int, seed int64, cfg *Config) *Program {
 			top.Calls = top.Calls[:3] // CHK takes an int
 		}
 		p.Pipelines = []*Pipeline{sub, top}
+	case 9:
+		// array literals of a wide struct narrowed to a smaller struct on
+		// their way through a sub-pipeline input: uniform, null first / last,
+		// a reference last, a 2-d literal with an empty last row, a typed map
+		p.Structs = append(p.Structs,
+			&Struct{Name: "SMALL", Fields: []Param{{Name: "a", Type: TInt}}},
+			&Struct{Name: "BIG", Fields: []Param{{Name: "a", Type: TInt}, {Name: "b", Type: TString}, {Name: "c", Type: ArrayOf(TInt)}}})
+		tsmall, tbig := &Type{Kind: KStruct, Name: "SMALL"}, &Type{Kind: KStruct, Name: "BIG"}
+		big := func() *Exp {
+			return &Exp{Kind: EStruct, Keys: []string{"a", "b", "c"}, Elems: []*Exp{lit(int64(g.r.Intn(1000))),
+				{Kind: EString, S: fmt.Sprintf("s%d", g.r.Intn(1000))}, {Kind: EArray, Elems: []*Exp{lit(int64(g.r.Intn(9)))}}}}
+		}
+		null := func() *Exp { return &Exp{Kind: ENull} }
+		arr := func(es ...*Exp) *Exp { return &Exp{Kind: EArray, Elems: es} }
+		p.Stages = append(p.Stages,
+			src(&Stage{Name: "PRODUCE", Ins: []Param{{Name: "a", Type: TInt}}, Outs: []Param{{Name: "big", Type: tbig}}}),
+			src(&Stage{Name: "CONSUME", Ins: []Param{{Name: "smalls", Type: ArrayOf(tsmall)}, {Name: "grid", Type: ArrayOf(ArrayOf(tsmall))}, {Name: "bykey", Type: TMapOf(tsmall)}}, Outs: []Param{{Name: "n", Type: TInt}}}))
+		narrow := &Pipeline{Name: "INNER", Ins: []Param{{Name: "bigs", Type: ArrayOf(tbig)}, {Name: "grid", Type: ArrayOf(ArrayOf(tbig))}, {Name: "bykey", Type: TMapOf(tbig)}},
+			Outs: []Param{{Name: "n", Type: TInt}, {Name: "smalls", Type: ArrayOf(tsmall)}, {Name: "grid", Type: ArrayOf(ArrayOf(tsmall))}},
+			Calls: []*Call{{Callee: "CONSUME", Binds: []Binding{{Id: "smalls", Exp: self("bigs")}, {Id: "grid", Exp: self("grid")}, {Id: "bykey", Exp: self("bykey")}}}},
+			Ret:   []Binding{{Id: "n", Exp: ref("CONSUME", "n")}, {Id: "smalls", Exp: self("bigs")}, {Id: "grid", Exp: self("grid")}}}
+		top := &Pipeline{Name: "TOP"}
+		top.Calls = append(top.Calls, &Call{Callee: "PRODUCE", Binds: []Binding{{Id: "a", Exp: lit(s1)}}})
+		variants := []struct {
+			name       string
+			bigs, grid *Exp
+		}{
+			{"UNIFORM", arr(big(), big()), arr(arr(big()), arr(big()))},
+			{"NULLFIRST", arr(null(), big()), arr(arr(), arr(big()))},
+			{"NULLLAST", arr(big(), null()), arr(arr(big()), arr())},
+			{"REFLAST", arr(big(), ref("PRODUCE", "big")), arr(arr(big(), big()), null())},
+		}
+		for _, v := range variants {
+			bykey := &Exp{Kind: EMap, Keys: []string{"a", "b"}, Elems: []*Exp{big(), null()}}
+			top.Calls = append(top.Calls, &Call{Callee: "INNER", Alias: v.name, Binds: []Binding{{Id: "bigs", Exp: v.bigs}, {Id: "grid", Exp: v.grid}, {Id: "bykey", Exp: bykey}}})
+			top.Outs = append(top.Outs, Param{Name: "s_" + strings.ToLower(v.name), Type: ArrayOf(tsmall)}, Param{Name: "g_" + strings.ToLower(v.name), Type: ArrayOf(ArrayOf(tsmall))})
+			top.Ret = append(top.Ret, Binding{Id: "s_" + strings.ToLower(v.name), Exp: ref(v.name, "smalls")}, Binding{Id: "g_" + strings.ToLower(v.name), Exp: ref(v.name, "grid")})
+		}
+		p.Stages = p.Stages[len(p.Stages)-2:]
+		p.Pipelines = []*Pipeline{narrow, top}
+	case 10:
+		// inside a map-called pipeline a call whose inputs do not depend on
+		// the mapped element but whose disabled modifier does (run-time and
+		// literal flag collections)
+		flags := src(&Stage{Name: "FLAGS", Ins: []Param{{Name: "seed", Type: TInt}}, Outs: []Param{{Name: "flags", Type: wrap(TBool)}}})
+		p.Stages = append(p.Stages, flags)
+		inner := &Pipeline{Name: "INNER", Ins: []Param{{Name: "skip", Type: TBool}, {Name: "k", Type: TInt}},
+			Outs: []Param{{Name: "y", Type: TInt}, {Name: "n", Type: TInt}},
+			Calls: []*Call{
+				{Callee: "USE2", Alias: "WORK", Disabled: self("skip"), Binds: []Binding{{Id: "x", Exp: &Exp{Kind: ENull}}, {Id: "w", Exp: self("k")}}},
+				{Callee: "NOP"},
+			},
+			Ret: []Binding{{Id: "y", Exp: ref("WORK", "y")}, {Id: "n", Exp: ref("NOP", "n")}}}
+		lits := &Exp{Kind: EArray}
+		// mixed on purpose: martian folds an all-equal literal control into a
+		// constant, and the call then (by design) no longer forks along it
+		first := g.pct(50)
+		for k, b := range []bool{first, !first, g.pct(50)} {
+			_ = k
+			lits.Elems = append(lits.Elems, &Exp{Kind: EBool, B: b})
+		}
+		top := &Pipeline{Name: "TOP", Outs: []Param{{Name: "y", Type: wrap(TInt)}, {Name: "y2", Type: ArrayOf(TInt)}},
+			Calls: []*Call{
+				{Callee: "FLAGS", Binds: []Binding{{Id: "seed", Exp: lit(s1)}}},
+				{Callee: "INNER", Alias: "M1", Map: true, Binds: []Binding{{Id: "skip", Exp: ref("FLAGS", "flags"), Split: true}, {Id: "k", Exp: lit(s2)}}},
+				{Callee: "INNER", Alias: "M2", Map: true, Binds: []Binding{{Id: "skip", Exp: lits, Split: true}, {Id: "k", Exp: lit(s2)}}},
+			},
+			Ret: []Binding{{Id: "y", Exp: ref("M1", "y")}, {Id: "y2", Exp: ref("M2", "y")}}}
+		p.Pipelines = []*Pipeline{inner, top}
 	default:
 		fk := kind - NTemplates // file-passing skeleton number
 		// file-passing skeletons: a stage mapped over a run-time sized
@@ -257,6 +327,25 @@ func Template(kind int, seed int64, cfg *Config) *Program {
 				{Callee: "MK", Map: true, Volatile: g.pct(50), Binds: []Binding{{Id: "x", Exp: ref("GENI", "arr"), Split: true}}},
 			}}
 		switch fk {
+		case 6:
+			// pass-through: a file made by a stage nested in a sub-pipeline and
+			// a stage at top level that hands it on (the probe makes LINK's
+			// outputs relative symlinks to its input when the spec says so);
+			// both are returned, in both declaration orders
+			link := src(&Stage{Name: "LINK", Ins: []Param{{Name: "f", Type: TFile}}, Outs: []Param{{Name: "g", Type: TFile}, {Name: "h", Type: TFile}}})
+			p.Stages = append(p.Stages, link)
+			inner := &Pipeline{Name: "INNERF", Ins: []Param{{Name: "x", Type: TInt}}, Outs: []Param{{Name: "f", Type: TFile}, {Name: "f2", Type: TFile}},
+				Calls: []*Call{{Callee: "MK", Binds: []Binding{{Id: "x", Exp: self("x")}}}, {Callee: "MK", Alias: "MKB", Binds: []Binding{{Id: "x", Exp: self("x")}}}},
+				Ret:   []Binding{{Id: "f", Exp: ref("MK", "f")}, {Id: "f2", Exp: ref("MKB", "f")}}}
+			top.Calls = []*Call{
+				{Callee: "INNERF", Binds: []Binding{{Id: "x", Exp: lit(s1)}}},
+				{Callee: "LINK", Binds: []Binding{{Id: "f", Exp: ref("INNERF", "f")}}},
+				{Callee: "LINK", Alias: "LINK2", Binds: []Binding{{Id: "f", Exp: ref("INNERF", "f2")}}},
+			}
+			top.Outs = []Param{{Name: "x", Type: TFile}, {Name: "y", Type: TFile}, {Name: "y2", Type: TFile}, {Name: "x2", Type: TFile}}
+			top.Ret = []Binding{{Id: "x", Exp: ref("INNERF", "f")}, {Id: "y", Exp: ref("LINK", "g")}, {Id: "y2", Exp: ref("LINK2", "g")}, {Id: "x2", Exp: ref("INNERF", "f2")}}
+			p.Stages = p.Stages[1:] // GENI unused
+			p.Pipelines = []*Pipeline{inner}
 		case 5:
 			// volatile producers whose only consumer is disabled at run time by
 			// another call's flag (three pairs, flags vary with the seed)
